@@ -66,7 +66,7 @@ class CircuitWorld(World):
     NAME = "circuit"
     LEVEL = "exploration"
     SIM_TIME_UNIT = "operations (public calls and generator advances)"
-    RUNS = {"quick": 4000, "thorough": 120000}
+    RUNS = {"quick": 4000, "thorough": 80000}
     WALL_CAP = {"quick": 1200, "thorough": 3300}
     SHRINK_BUDGET = 60
     RULE = (
